@@ -264,3 +264,106 @@ def replay_cache(path):
         return 1
     v.tlc_ok(r, "TraceCache(replay)")
     return 0
+
+
+# ------------------------------------------------------------------------------------------------------
+# concurrent part: cache calls of several threads interleaved at the cache's lock acquisitions
+# ------------------------------------------------------------------------------------------------------
+CPOINTS = ["cache_rd", "cache_wr", "cache_evlock", "between_ops"]
+
+
+def _cprog(init, threads, high=1 << 20, low=1 << 19, nkeys=4):
+    gens = [[g, k, 10 + g] for k in range(1, nkeys + 1) for g in (k * 10 + 1, k * 10 + 2)]
+    return {"cfg": {"cachemode": True, "high": high, "low": low, "nkeys": nkeys, "pers": False, "ttl": True, "lim": -1},
+            "keys": ["k1"], "gens": gens, "init": init, "threads": threads, "points": CPOINTS}
+
+
+def conc_family(rng, tier):
+    """Two- and three-thread programs on keys that share ONE bucket: position-dependent removals against
+    removals / insertions / sweeps of the neighbours, generation-qualified calls, every thread ends by looking up
+    what it removed."""
+    I = lambda k, g=0, n=100: {"op": "c_ins", "k": k, "g": g, "vlen": n}
+    G = lambda k, g=0: {"op": "c_get", "k": k, "g": g}
+    R = lambda k, g=0: {"op": "c_rem", "k": k, "g": g}
+    E = {"op": "c_evict"}
+    full = [I(1), I(2), I(3), I(4)]
+    tagged = [I(1, 11), I(2, 21), I(3, 31)]
+    progs = []
+    # removals of neighbours in one bucket (the Vec shifts under a position found earlier)
+    for a, b in ((3, 1), (4, 2), (2, 1), (4, 1)):
+        progs.append(("rmrm_%d%d" % (a, b), _cprog(full, [[R(a), G(a)], [R(b), G(b)]])))
+        progs.append(("rmins_%d%d" % (a, b), _cprog(full, [[R(a), G(a)], [R(b), I(b, 0, 60), G(b)]])))
+    progs.append(("rmrmrm", _cprog(full, [[R(4), G(4)], [R(2), G(2)], [R(1), G(1)]])))
+    # generation-qualified removal / lookup against a re-insert of the same key under another generation
+    progs.append(("gen_swap", _cprog(tagged, [[R(1, 11), G(1, 11), G(1)], [I(1, 12, 80), G(1, 12)]])))
+    progs.append(("gen_rm_other", _cprog(tagged, [[R(2, 21), G(2, 21)], [R(1, 11), I(1, 12, 70), G(1, 11)]])))
+    # sweeps (small watermarks: three 100-byte entries exceed `high`) against removals and lookups
+    small = dict(high=700, low=300)
+    progs.append(("evict_rm", _cprog(full[:3], [[E, G(1)], [R(3), G(3)]], **small)))
+    progs.append(("ins_sweep_rm", _cprog(full[:3], [[I(4), G(4)], [R(2), G(2)]], **small)))
+    progs.append(("evict_evict", _cprog(full[:3], [[E], [E, G(2)]], **small)))
+    progs.append(("touch_evict", _cprog(full[:3], [[G(1), G(2)], [E, G(1)]], **small)))
+    if tier != "quick":
+        for a in (1, 2, 3):
+            progs.append(("rm_ins_ev_%d" % a, _cprog(full[:3], [[R(a), G(a)], [I(4), G(4)], [E]], **small)))
+    return progs
+
+
+def run_cache_conc(tier, seed, rd, fxv):
+    """DFS over the interleavings (at the lock acquisitions of the watched bucket) of the family; the recorded
+    critical-section order is validated by TraceCache.tla.  Returns dict(violations, traces, events, schedules)."""
+    rng = random.Random(seed)
+    fam = conc_family(rng, tier)
+    out = {"violations": [], "traces": 0, "events": 0, "schedules": 0, "states": 0, "transitions": 0, "programs": len(fam)}
+
+    def one(item):
+        name, p = item
+        pf = os.path.join(rd, "cc_%s.prog" % name)
+        open(pf, "w").write(json.dumps(p) + "\n")
+        trace = os.path.join(rd, "cc_%s.ndjson" % name)
+        rc, so, se = v.run_cmd([fxv, "conc", "--mode", "dfs", "--prog", pf, "--out", trace,
+                                "--maxsched", "150" if tier == "quick" else "1500", "--preempt", "2" if tier == "quick" else "3"],
+                               timeout=600)
+        info = {}
+        for line in so.splitlines():
+            try:
+                info.update(json.loads(line))
+            except Exception:
+                pass
+        if "panicked at" in (se or "") and v.panic_in_code_under_test(se):
+            # a panic inside the cache (e.g. a stale position past the end of the bucket) is a result
+            return name, trace, info, ("panic", v.clip_stderr(se, 1500), True)
+        if rc != 0:
+            return name, trace, info, ("fail", v.clip_stderr(se, 1500), False)
+        r = v.run_tlc("TraceCache", "TraceCache.cfg", os.path.join(rd, "tlc_cc_" + name), workers=1, timeout=900,
+                      env_extra={"TRACE": trace}, depth_first=True, coverage=False, xmx="2g")
+        return name, trace, info, r
+    for name, trace, info, r in v.parallel_map(one, fam, jobs=8):
+        out["schedules"] += info.get("schedules", 0)
+        if isinstance(r, tuple):
+            kind, se, loc = r
+            if loc:
+                keep = v.save_replay("c16", "cacheconc_%s.stderr" % name, se)
+                out["violations"].append({"what": "cache calls racing in one bucket: panic in the code under test (%s): %s"
+                                                  % (name, se[-300:]), "replay": keep, "key": "cacheconc panic"})
+                continue
+            raise v.ToolError("fxv conc (cache program %s) failed: %s" % (name, se[-400:]))
+        lines = open(trace).read().splitlines()
+        prop = None
+        if r.violation:
+            m = re.search(r"(?:invariant|action property) (\w+)", r.violation)
+            prop = m.group(1) if m else None
+        if prop in TRACE_PROPS:
+            idx, ev = _rejected_event(r, lines)
+            keep = v.save_replay("c16", "cacheconc_" + os.path.basename(trace), open(trace).read())
+            out["violations"].append({"what": "%s fails at event %s of the interleaved cache program %s: %s" % (prop, idx, name, ev),
+                                      "replay": keep, "key": "cacheconc %s" % prop})
+        else:
+            v.tlc_ok(r, "TraceCache(conc %s)" % name)
+            if r.violation:
+                raise v.ToolError("TraceCache(conc %s): trace not consumed (%s)" % (name, r.violation))
+        out["traces"] += 1
+        out["events"] += len(lines)
+        out["states"] += r.distinct
+        out["transitions"] += r.generated
+    return out
